@@ -10,6 +10,7 @@ python3 tools/bindings.py --repo "${VERIF_REPO:-/repo}" --coq coq/Bindings_gen.v
 timeout 600 python3 tools/effects.py >/dev/null 2>&1 || echo "effects.py could not translate (C08 will report it)"
 python3 tools/circuit_access.py --repo "${VERIF_REPO:-/repo}" --coq coq/CircuitAccess_gen.v || echo "circuit_access.py could not translate (C03 will report it)"
 python3 tools/nondet.py --repo "${VERIF_REPO:-/repo}" --coq coq/Nondet_gen.v || echo "nondet.py could not translate (C08 will report it)"
+python3 tools/machine_ops.py --repo "${VERIF_REPO:-/repo}" --coq coq/MachineOps_gen.v || echo "machine_ops.py could not translate (C07 will report it)"
 cd coq
 coq_makefile -f _CoqProject -o Makefile
 timeout 3000 make -k -j16
